@@ -8,7 +8,7 @@
 From Coq Require Import ZArith List Bool.
 From EV Require Import Base.Arith Gen.Brent Model.MpsMachine
   Proofs.MpsStep Proofs.MpsPhase Proofs.MpsSweep Proofs.MpsTdvpComplete Proofs.MpsTdvpStep
-  Proofs.MpsTdvpRun Proofs.MpsTdvpTrace.
+  Proofs.MpsTdvpRun Proofs.MpsTdvpTrace Proofs.MpsTdvpN2.
 Import ListNotations.
 Open Scope Z_scope.
 
@@ -59,3 +59,31 @@ Theorem C02_step_kernels_symmetric :
   rev (flat_map (@kernel_of A) (step_events A ar n k cur tgt sm next)) =
   flat_map (@kernel_of A) (step_events A ar n k cur tgt sm next).
 Proof. exact step_kernels_symmetric. Qed.
+
+(* The two-site corner case of progress(): exactly one progress() call per interval, each a single pair
+   evolution over the whole interval followed by the same end-of-step bookkeeping; never fails. *)
+Theorem C02_tdvp_whole_run_two_sites :
+  forall (A : Type) (ar : Arith A) (t0 t1 : A) (rest : list A) (same : list bool)
+         onorm ounif oenergy etol maxsw,
+  (length (t1 :: rest) <= length same)%nat ->
+  exists s0 sf,
+    mk_initial ar TDVP 2 (1 + Z.of_nat (length rest)) (t0 :: t1 :: rest) etol maxsw
+               onorm ounif oenergy same = Ok s0 /\
+    iter_progress ar (length (t1 :: rest)) s0 = Ok sf /\ is_finished sf = true /\
+    m_ev sf = rev (init_events A ar t1 ++ run_events2 A ar 0 (a_ofZ ar 0) (t1 :: rest) same).
+Proof. exact tdvp_whole_run2. Qed.
+
+Theorem C02_two_sites_fills_updates_kernels :
+  forall (A : Type) (ar : Arith A) (ts : list A) (k : Z) (cur : A) (same : list bool),
+  (length ts <= length same)%nat ->
+  flat_map (@fill_of A) (run_events2 A ar k cur ts same) = expected_fills A k ts /\
+  flat_map (@update_of A) (run_events2 A ar k cur ts same) = expected_updates A k ts /\
+  flat_map (@kernel_of A) (run_events2 A ar k cur ts same) = expected_kernels2 A ar cur ts.
+Proof. intros; repeat split; [apply run2_fills|apply run2_updates|apply run2_kernels]; assumption. Qed.
+
+(* Fewer than two sites: the constructor refuses (assert self.qubit_count >= 2), for every solver kind. *)
+Theorem C02_fewer_than_two_sites_rejected :
+  forall (A : Type) (ar : Arith A) (k : kind) (N steps : Z) times etol maxsw onorm ounif oenergy same t1,
+  nthZ times 1 = Some t1 -> N < 2 ->
+  mk_initial ar k N steps times etol maxsw onorm ounif oenergy same = Err 120.
+Proof. exact mk_initial_rejects_small. Qed.
